@@ -353,6 +353,8 @@ def product_sample_order_rule(ctx, rid):
                         return order_states
                     if s == 'np.column_stack':
                         return np.column_stack(it.ev(call.args[0]))
+                    if s.split('.')[-1] == 'parse_random_state':
+                        return it.ev(call.args[0])  # the generator is opaque to the column-order question
                     return NotImplemented
                 it = fdx.NumInterp({'self': {'sim_states': sim_states}, 'qubits': list(sub), 'repetitions': 1, 'seed': None}, call_hook=call_hook)
                 it.builtins.update({'set': set, 'any': any, 'dict': dict})
